@@ -6,6 +6,8 @@ import MirosModel.Gen.Constants
 Model: `Miros.Hsm.dispatch` (faithful to hsm.py 531-662), spec: `Miros.Hsm.offers`.
 All statements are for every chart (any tree shape and depth), every current
 state, every event, and for the switches generated from the current source.
+`C02_no_change` assumes that every handler ends in `else: … SUPER` (`fall = false`): a fall-through
+state that has no clause for the event answers `None` and the step raises (see `Props/C24.lean`).
 -/
 namespace Miros.Props.C02
 open Miros.Hsm
@@ -41,12 +43,12 @@ theorem C02_first_answer (c : Chart) (n : Nat) (a : Nat) (p : St)
 the step succeeds, makes exactly the offers of the spec (and no entry / exit / init call), and
 leaves the chart (current state and search cursor) where it was. -/
 theorem C02_no_change (c : Chart) (cur : St) (n : Nat)
-    (hn : ∀ s, c.react s n ≠ .none)
+    (hn : ∀ s, c.react s n ≠ .none) (hf : ∀ s, c.fall s = false)
     (h : ∀ S T, (offers c n cur).2 ≠ .tran S T) :
     ∃ r, dispatch c Miros.Gen.cfg cur n = .ok r ∧ r.state = cur ∧ r.temp = cur ∧
       actions r.log = (offers c n cur).1 ∧
       (∀ x ∈ actions r.log, x.sig = .user n) := by
-  have hs := searchLoop_spec c n hn cur { temp := cur, log := [] }
+  have hs := searchLoop_spec c n hn hf cur { temp := cur, log := [] }
   have hon := C02_offers_only_event c n cur
   cases ha : (offers c n cur).2 with
   | tran S T => exact absurd ha (h S T)
@@ -101,6 +103,7 @@ def demo : Chart where
   init := fun _ => none
   exitH := fun _ => true
   depth := 3
+  fall := fun _ => false
 
 example : (offers demo 0 [3, 2, 1]).1.map Call.s = [[3, 2, 1], [2, 1], [1]] := by decide
 example : (offers demo 0 [3, 2, 1]).2 = .handled [1] := by decide
